@@ -6,12 +6,13 @@ import (
 	"go/ast"
 	"go/parser"
 	"go/token"
+	"go/types"
 	"path/filepath"
 	"sort"
 	"strings"
 )
 
-// tr-wiring: extracts, from the post-order cases ifStmt0..3 and forStmt0..7 of interp/cfg.go, the
+// tr-wiring: extracts, from the post-order cases ifStmt0..3, forStmt0..7, switchStmt and switchIfStmt of interp/cfg.go, the
 // control-flow edge assignments (X.start = ..., X.tnext = ..., setFNext(X, ...)) under each kind of
 // condition (not a constant / constant true / constant false) and writes them as data into
 // coq/gen/Wiring_gen.v. Core/Wiring.v proves that the wiring tables of the model Y (Cfg.wire_if,
@@ -146,6 +147,176 @@ func wrEval(stmts []ast.Stmt, k int, out *[]wrEdge) {
 	}
 }
 
+// ---------------------------------------------------------------- switch clauses
+
+// The clause loops of switchStmt / switchIfStmt ("for i := l - 1; i >= 0; i--") are evaluated symbolically
+// under every assignment of their guards; sources, fields and targets are recognised by their source text.
+var swGuards = map[string]string{
+	"len(c.child) == 0": "empty",
+	"i == l-1":          "last",
+	"i < l-1 && len(body.child) > 0 && body.lastChild().kind == fallthroughtStmt": "ft",
+	"len(clauses[i+1].child) == 0":                                                "nempty",
+	"len(clauses[i+1].child) > 1":                                                 "nmulti",
+	"len(c.child) > 1":                                                            "hascond",
+	"n.kind == typeSwitch":                                                        "false",
+}
+
+// sources: 0 c, 1 c.child[0] / cond, 2 body, 3 sbn, 4 n, 5 n.child[0]
+var swSrc = map[string]int{"c": 0, "clauses[i]": 0, "c.child[0]": 1, "cond": 1, "body": 2, "sbn": 3, "n": 4, "n.child[0]": 5}
+
+// targets: 1 n, 2 c, 3 body.start, 4 c.child[0].start / cond.start, 5 clauses[i+1].lastChild().start,
+// 6 clauses[i+1].start, 7 clauses[i+1], 8 clauses[0].start, 9 n.child[0].start, 10 sbn.start
+var swDst = map[string]int{"n": 1, "c": 2, "body.start": 3, "c.child[0].start": 4, "cond.start": 4,
+	"clauses[i+1].lastChild().start": 5, "clauses[i+1].start": 6, "clauses[i+1]": 7,
+	"clauses[0].start": 8, "n.child[0].start": 9, "sbn.start": 10}
+
+type swEdge struct{ src, field, dst int }
+
+func swStr(e ast.Expr) string { return strings.ReplaceAll(types.ExprString(e), " ", "") }
+
+func swNoSpace[T any](m map[string]T) map[string]T {
+	out := map[string]T{}
+	for k, v := range m {
+		out[strings.ReplaceAll(k, " ", "")] = v
+	}
+	return out
+}
+
+func init() {
+	swGuards, swSrc, swDst = swNoSpace(swGuards), swNoSpace(swSrc), swNoSpace(swDst)
+}
+
+// swEval returns false when a "continue" ended the iteration.
+func swEval(stmts []ast.Stmt, env map[string]bool, out *[]swEdge) (bool, error) {
+	for _, st := range stmts {
+		switch x := st.(type) {
+		case *ast.AssignStmt:
+			if len(x.Lhs) != 1 || len(x.Rhs) != 1 || x.Tok != token.ASSIGN {
+				continue // local definitions (body := ..., cond := ...)
+			}
+			sel, ok := x.Lhs[0].(*ast.SelectorExpr)
+			if !ok {
+				continue
+			}
+			field := map[string]int{"start": 0, "tnext": 1, "fnext": 2}
+			f, ok := field[sel.Sel.Name]
+			if !ok {
+				continue // c.gen = nop, err = ...
+			}
+			src, ok := swSrc[swStr(sel.X)]
+			if !ok {
+				return false, fmt.Errorf("switch wiring: unknown edge source %s", swStr(x.Lhs[0]))
+			}
+			dst, ok := swDst[swStr(x.Rhs[0])]
+			if !ok {
+				return false, fmt.Errorf("switch wiring: unknown edge target %s", swStr(x.Rhs[0]))
+			}
+			*out = append(*out, swEdge{src, f, dst})
+		case *ast.ExprStmt:
+			c, ok := x.X.(*ast.CallExpr)
+			if !ok {
+				continue
+			}
+			if id, ok := c.Fun.(*ast.Ident); ok && id.Name == "setFNext" && len(c.Args) == 2 {
+				src, ok1 := swSrc[swStr(c.Args[0])]
+				dst, ok2 := swDst[swStr(c.Args[1])]
+				if !ok1 || !ok2 {
+					return false, fmt.Errorf("switch wiring: unknown setFNext(%s, %s)", swStr(c.Args[0]), swStr(c.Args[1]))
+				}
+				*out = append(*out, swEdge{src, 2, dst})
+			}
+		case *ast.BranchStmt:
+			if x.Tok == token.CONTINUE {
+				return false, nil
+			}
+		case *ast.IfStmt:
+			g, ok := swGuards[swStr(x.Cond)]
+			if !ok {
+				return false, fmt.Errorf("switch wiring: unknown guard %s", swStr(x.Cond))
+			}
+			v := g != "false" && env[g]
+			var branch []ast.Stmt
+			if v {
+				branch = x.Body.List
+			} else if eb, ok := x.Else.(*ast.BlockStmt); ok {
+				branch = eb.List
+			} else if ei, ok := x.Else.(*ast.IfStmt); ok {
+				branch = []ast.Stmt{ei}
+			}
+			cont, err := swEval(branch, env, out)
+			if err != nil || !cont {
+				return cont, err
+			}
+		}
+	}
+	return true, nil
+}
+
+func swRender(es []swEdge) string {
+	last := map[[2]int]swEdge{}
+	for _, e := range es {
+		last[[2]int{e.src, e.field}] = e
+	}
+	var keys [][2]int
+	for k := range last {
+		keys = append(keys, k)
+	}
+	sort.Slice(keys, func(a, b int) bool {
+		if keys[a][0] != keys[b][0] {
+			return keys[a][0] < keys[b][0]
+		}
+		return keys[a][1] < keys[b][1]
+	})
+	var it []string
+	for _, k := range keys {
+		e := last[k]
+		it = append(it, fmt.Sprintf("(%d, %d, %d)", e.src, e.field, e.dst))
+	}
+	return "[" + strings.Join(it, "; ") + "]"
+}
+
+// swTable: the rows of one switch form: (guards, edges of one iteration of the clause loop), and the edges
+// assigned after the loop.
+func swTable(cc *ast.CaseClause, guards []string) (string, string, error) {
+	var loop *ast.ForStmt
+	var after []ast.Stmt
+	for _, st := range cc.Body {
+		if f, ok := st.(*ast.ForStmt); ok && loop == nil {
+			loop = f
+			continue
+		}
+		if loop != nil {
+			after = append(after, st)
+		}
+	}
+	if loop == nil {
+		return "", "", fmt.Errorf("switch wiring: clause loop not found")
+	}
+	var rows []string
+	n := len(guards)
+	for m := 0; m < 1<<n; m++ {
+		env := map[string]bool{}
+		var bs []string
+		for k, g := range guards {
+			env[g] = (m>>(n-1-k))&1 == 1
+			bs = append(bs, coqBool(env[g]))
+		}
+		if env["last"] && env["ft"] {
+			continue // the fallthrough guard contains i < l-1
+		}
+		var es []swEdge
+		if _, err := swEval(loop.Body.List, env, &es); err != nil {
+			return "", "", err
+		}
+		rows = append(rows, "  (["+strings.Join(bs, "; ")+"], "+swRender(es)+")")
+	}
+	var es []swEdge
+	if _, err := swEval(after, map[string]bool{}, &es); err != nil {
+		return "", "", err
+	}
+	return strings.Join(rows, ";\n"), swRender(es), nil
+}
+
 func runTrWiring(args []string) error {
 	fs := flag.NewFlagSet("tr-wiring", flag.ExitOnError)
 	repo := fs.String("repo", "/repo", "repository")
@@ -162,7 +333,7 @@ func runTrWiring(args []string) error {
 		if !ok || len(cc.List) != 1 {
 			return true
 		}
-		if id, ok := cc.List[0].(*ast.Ident); ok && (strings.HasPrefix(id.Name, "ifStmt") || strings.HasPrefix(id.Name, "forStmt")) {
+		if id, ok := cc.List[0].(*ast.Ident); ok && (strings.HasPrefix(id.Name, "ifStmt") || strings.HasPrefix(id.Name, "forStmt") || id.Name == "switchStmt" || id.Name == "switchIfStmt") {
 			if _, dup := clauses[id.Name]; dup {
 				clauses[id.Name+"#dup"] = cc
 			} else {
@@ -224,6 +395,23 @@ func runTrWiring(args []string) error {
 	if err != nil {
 		return err
 	}
+	var swRows, swAfter [2]string
+	for k, name := range []string{"switchStmt", "switchIfStmt"} {
+		cc, ok := clauses[name]
+		if !ok {
+			return fmt.Errorf("case %s not found in cfg.go", name)
+		}
+		if _, dup := clauses[name+"#dup"]; dup {
+			return fmt.Errorf("case %s found twice in cfg.go", name)
+		}
+		guards := []string{"empty", "last", "ft", "nempty", "nmulti"}
+		if k == 1 {
+			guards = []string{"empty", "hascond", "last", "ft"}
+		}
+		if swRows[k], swAfter[k], err = swTable(cc, guards); err != nil {
+			return err
+		}
+	}
 	var b strings.Builder
 	b.WriteString("(* generated by vh tr-wiring from interp/cfg.go: do not edit.\n")
 	b.WriteString("   rows: (form number, condition kind: 0 none / 1 constant true / 2 constant false / 3 not constant,\n")
@@ -232,6 +420,15 @@ func runTrWiring(args []string) error {
 	b.WriteString("From Coq Require Import List Bool.\nImport ListNotations.\nOpen Scope nat_scope.\n\n")
 	b.WriteString("Definition wedge := (nat * nat * nat * bool)%type.\n\n")
 	b.WriteString("Definition if_wiring_src : list (nat * nat * list wedge) := [\n" + ifRows + "\n].\n\n")
-	b.WriteString("Definition for_wiring_src : list (nat * nat * list wedge) := [\n" + forRows + "\n].\n")
+	b.WriteString("Definition for_wiring_src : list (nat * nat * list wedge) := [\n" + forRows + "\n].\n\n")
+	b.WriteString("(* clause loops of switchStmt (guards empty, last, ft, nempty, nmulti) and switchIfStmt (guards empty, hascond,\n")
+	b.WriteString("   last, ft): edges (source: 0 c, 1 c.child[0] or cond, 2 body, 3 sbn, 4 n, 5 n.child[0]; field; target: 1 n, 2 c,\n")
+	b.WriteString("   3 body.start, 4 c.child[0].start or cond.start, 5 clauses[i+1].lastChild().start, 6 clauses[i+1].start,\n")
+	b.WriteString("   7 clauses[i+1], 8 clauses[0].start, 9 n.child[0].start, 10 sbn.start) *)\n")
+	b.WriteString("Definition sedge := (nat * nat * nat)%type.\n\n")
+	b.WriteString("Definition case_wiring_src : list (list bool * list sedge) := [\n" + swRows[0] + "\n].\n\n")
+	b.WriteString("Definition case_after_src : list sedge := " + swAfter[0] + ".\n\n")
+	b.WriteString("Definition caseif_wiring_src : list (list bool * list sedge) := [\n" + swRows[1] + "\n].\n\n")
+	b.WriteString("Definition caseif_after_src : list sedge := " + swAfter[1] + ".\n")
 	return writeIfChanged(filepath.Join(*out, "Wiring_gen.v"), []byte(b.String()))
 }
